@@ -96,7 +96,12 @@ class Orient:
 
     def block(self, stmts):
         for s in stmts:
-            if isinstance(s, ast.Assign):
+            if isinstance(s, ast.Assign) and len(s.targets) == 1 and isinstance(s.targets[0], (ast.Tuple, ast.List)) and isinstance(s.value, (ast.Tuple, ast.List)) and len(s.targets[0].elts) == len(s.value.elts) and not any(isinstance(x, ast.Starred) for x in s.targets[0].elts + s.value.elts):
+                # parallel assignment: every right-hand side is read first, then each name gets its own value
+                vals = [self.ev(x) for x in s.value.elts]
+                for t, v, x in zip(s.targets[0].elts, vals, s.value.elts):
+                    self.bind(t, v, x)
+            elif isinstance(s, ast.Assign):
                 v = self.ev(s.value)
                 for t in s.targets:
                     self.bind(t, v, s.value)
